@@ -261,10 +261,15 @@ def exec (env : Env) (fs : FS) : Call → FS × Ret
       if (fs.get dst).isSome then (fs, .err .exists)
       else if !fs.isDir (parent dst) then (fs, .err .notFound)
       else (fs.put dst (.file b), .unit)
-    | some (.link t) =>                                     -- linkat without AT_SYMLINK_FOLLOW links the link
-      if (fs.get dst).isSome then (fs, .err .exists)
-      else if !fs.isDir (parent dst) then (fs, .err .notFound)
-      else (fs.put dst (.link t), .unit)
+    | some (.link _) =>
+      -- the library links the canonicalized source (the file that was verified), not the symlink:
+      -- a relative link text would mean something else next to the destination (F28)
+      match fs.readFile src with
+      | .ok b =>
+        if (fs.get dst).isSome then (fs, .err .exists)
+        else if !fs.isDir (parent dst) then (fs, .err .notFound)
+        else (fs.put dst (.file b), .unit)
+      | .error e => (fs, .err e)
     | some .dir => (fs, .err .other)
     | none => (fs, .err .notFound)
   | .symlink t p =>
